@@ -233,7 +233,7 @@ def _(self: Union[DCELE(4), DCELE(132)]) -> bytes:
 from spsdk.dat.dac_packet import DebugAuthenticationChallenge  # noqa: E402
 
 
-def DAC(hl):
+def DACOBJ(hl):
     return Obj(DebugAuthenticationChallenge, version=Obj(AbsVersion, major=OneOf(1, 2), minor=OneOf(0, 1, 2)), socc=U32, uuid=Bytes(16), rotid_rkh_revocation=U32,
                rotid_rkth_hash=Bytes(hl), cc_soc_pinned=U32, cc_soc_default=U32, cc_vu=U32, challenge=Bytes(32))
 
@@ -248,7 +248,7 @@ def _mk_dac(rnd):
 
 
 @contract("spsdk.dat.dac_packet:DebugAuthenticationChallenge.export")
-def _(self: Union[DAC(32), DAC(48), DAC(64)]) -> bytes:
+def _(self: Union[DACOBJ(32), DACOBJ(48), DACOBJ(64)]) -> bytes:
     returns(self.version.major.to_bytes(2, "little") + self.version.minor.to_bytes(2, "little") + self.socc.to_bytes(4, "little") + self.uuid
             + self.rotid_rkh_revocation.to_bytes(4, "little") + self.rotid_rkth_hash + self.cc_soc_pinned.to_bytes(4, "little")
             + self.cc_soc_default.to_bytes(4, "little") + self.cc_vu.to_bytes(4, "little") + self.challenge,
